@@ -38,6 +38,26 @@ Theorem delivered_only_to_recipients : ∀ bad recips n m o, o ∈ (send bad n r
 Proof. exact send_only_recipients. Qed.
 Print Assumptions delivered_only_to_recipients.
 
+From Wasp Require Import Proofs.IdPoolFacts Proofs.IdsFacts Proofs.DeliverFacts.
+(** ... and at QoS 1/2: the entry is written to a registered recipient under an identifier taken
+    from the pool — one that is in range and not in flight — whenever the pool has one left, and
+    the delivery is then pending in the in-flight table, so that C03's retransmission applies to
+    it until it is acknowledged.  ([GN n []] is the identifier invariant, which holds in every
+    reachable state: C06's [inflight_identifiers_unique_and_never_leak]; the last premise says that
+    the in-flight entries filed under this session's id are its outbound ones, which holds as
+    long as no session id ends in "/in".) *)
+Theorem qos_recipient_is_written : ∀ bad n r q s m,
+  GN n [] → alookup r (n_reg n) = Some s → (q = 1 ∨ q = 2) →
+  (∃ x, 1 ≤ x ≤ 65535 ∧ infree (ivs (n_pool n)) x) →
+  (∀ e, e ∈ n_acks n → a_prefix e = ss_id s → outbound e = true) →
+  ∃ mid, 1 ≤ mid ≤ 65535 ∧ mid ∉ out_mids (n_acks n) ∧
+    let pk := OPublish (trim_mp (ss_mp s) (l_topic m)) (l_payload m) q (l_retain m) (l_dup m) mid in
+    (send bad n [(r, q)] m).2 = wout bad (ss_conn s) pk ∧
+    ∃ e, e ∈ n_acks (send bad n [(r, q)] m).1 ∧ a_prefix e = ss_id s ∧ a_mid e = mid ∧ outbound e = true ∧
+         (a_tag e = TQ1 (ss_id s) pk ∨ a_tag e = TQ2Pub (ss_id s) pk).
+Proof. exact qos_recipient_written. Qed.
+Print Assumptions qos_recipient_is_written.
+
 (** the very first message a node ever stores is delivered *)
 Example first_message_delivered :
   let run := fold_left (λ st o, let r := step [] st.1 o in (r.1, (st.2 ++ [r.2])%list)) in
